@@ -382,6 +382,18 @@ func earlierExits(info *types.Info, list []ast.Stmt, child ast.Node) []Guard {
 			}
 			ifs, ok = ifs.Else.(*ast.IfStmt)
 		}
+		// a tagless `switch { case a: leave; case b: leave; ... }`: the same for its leading cases
+		if sw, ok := s.(*ast.SwitchStmt); ok && sw.Tag == nil && sw.Init == nil {
+			for _, c := range sw.Body.List {
+				cc := c.(*ast.CaseClause)
+				if cc.List == nil || !terminates(info, cc.Body) {
+					break
+				}
+				for _, e := range cc.List {
+					gs = append(gs, Guard{e, false})
+				}
+			}
+		}
 	}
 	return gs
 }
@@ -1298,4 +1310,35 @@ func inlinedStr(u *FuncUnit, e ast.Expr) string {
 		return exprStr(e)
 	}
 	return pr(e, 0)
+}
+
+// guardsWithCallers: the flattened guards of node n in u, plus -- when u is only a helper -- the
+// guards that hold at EVERY static call site of u in units (a condition tested by all callers
+// before calling the helper guards the helper's body as well). One level.
+func guardsWithCallers(units []*FuncUnit, u *FuncUnit, n ast.Node) []Guard {
+	gs := flattenGuards(GuardsOf(u.Info(), u.Decl.Body, n))
+	sites := callSitesOfGeneric(units, u)
+	if len(sites) == 0 {
+		return gs
+	}
+	var common map[string]Guard
+	for _, s := range sites {
+		cur := map[string]Guard{}
+		for _, g := range flattenGuards(GuardsOf(s.Unit.Info(), s.Unit.Decl.Body, s.Node)) {
+			cur[g.String()] = g
+		}
+		if common == nil {
+			common = cur
+			continue
+		}
+		for k := range common {
+			if _, ok := cur[k]; !ok {
+				delete(common, k)
+			}
+		}
+	}
+	for _, k := range sortedKeys(common) {
+		gs = append(gs, common[k])
+	}
+	return gs
 }
